@@ -1,5 +1,6 @@
 #![allow(unused, dead_code, unreachable_code)]
 pub mod c12;
+pub mod c04;
 
 /// opaque environment operations: bodies are never used, the checker binds python models to them
 macro_rules! stub {
